@@ -404,26 +404,27 @@ func checkCase(c c21Case) (o pbt.Outcome) {
 // classify maps "a modifying statement of a read-only user was executed" to its root cause.
 func classify(c c21Case) string {
 	kind := c.Kind % nKinds
+	// the verb is invisible to parser.Preview: inside a /*! */ version comment (StmtComment),
+	// behind a # comment, or glued to a following comment (first word is e.g. "insert/**/into")
+	hidden := c.wrap() == 1 || c.wrap() == 2 || c.Lead%len(leads) == leadHash || verbSepGlued(c.verbSep())
 	switch {
+	case kind == kLoadData:
+		// F2: parser.Preview does not know LOAD DATA at all (StmtUnknown), hidden or not.
+		return "C21-F2"
+	case hidden:
+		// F3: whatever the kind, the read-only rule never learns what the statement is.
+		return "C21-F3"
 	case kind == kReplace || isDDL(kind):
 		// F1: parser.Preview names the statement correctly (StmtReplace / StmtDDL) but
 		// isSQLNotAllowedByUser lists only INSERT, UPDATE and DELETE.
 		return "C21-F1"
-	case kind == kLoadData:
-		// F2: parser.Preview does not know LOAD DATA at all (StmtUnknown).
-		return "C21-F2"
 	}
-	// INSERT / UPDATE / DELETE are refused when Preview sees the verb; it does not when
-	// F3: the verb is inside a /*! */ version comment (StmtComment), behind a # comment,
-	// or glued to a following comment (first word is e.g. "insert/**/into").
-	if c.wrap() == 1 || c.wrap() == 2 || c.Lead%len(leads) == leadHash || verbSepGlued(c.verbSep()) {
-		return "C21-F3"
-	}
+	// a visible INSERT / UPDATE / DELETE that is executed has no known explanation
 	return ""
 }
 
 func TestC21ReadOnly(t *testing.T) {
-	pbt.Run(t, pbt.Spec{ID: "C21", Sub: "readonly", Quick: 1000, Thorough: 8000,
+	pbt.Run(t, pbt.Spec{ID: "C21", Sub: "readonly", Quick: 1000, Thorough: 4000,
 		Rule: "one statement per case from a read-only user (with / without read/write splitting): kinds select, show (controls, 1/7) and insert, update, delete, replace, create/alter/drop/truncate/rename table, create/drop index, load data (several forms each); keyword case; leading /* */, --, # comments and whitespace; comment or newline between verb and next word; /*!40101 */ around the statement or the verb; /*master*/ hint; sent as COM_QUERY, as first/middle/last piece of a multi-statement query, or through prepare/execute with and without a ? parameter. non-trivial = modifying statement that is decorated or not plain insert/update/delete",
 		Floor: 0.5}, genCase, checkCase)
 }
